@@ -904,13 +904,15 @@ pub fn k_c05_five_safe_playback() {
 }
 
 #[kani::proof]
-#[kani::unwind(15)]
+#[kani::unwind(9)]
+#[kani::stub(ckc_rs::cards::five::Five::find_in_products, crate::stubs::find_in_products_contract)]
 pub fn k_c05_blank_five_invalid() {
     crate::ob::c05::blank_five_invalid(&mut KaniSrc);
 }
 
 #[kani::proof]
-#[kani::unwind(15)]
+#[kani::unwind(9)]
+#[kani::stub(ckc_rs::cards::five::Five::find_in_products, crate::stubs::find_in_products_contract)]
 pub fn k_c05_blank_five_invalid_playback() {
     unsafe { crate::src::REACH_OFF = true; }
     crate::ob::c05::blank_five_invalid(&mut KaniSrc);
@@ -1274,6 +1276,25 @@ pub fn k_c02_seven_entry_points() {
 pub fn k_c02_seven_entry_points_playback() {
     unsafe { crate::src::REACH_OFF = true; }
     crate::ob::c02::seven_entry_points(&mut KaniSrc);
+}
+
+#[kani::proof]
+#[kani::unwind(5)]
+#[kani::stub(<ckc_rs::cards::five::Five as ckc_rs::cards::HandRanker>::hand_rank_value_validated, crate::stubs::five_validated_fixed)]
+#[kani::stub(<ckc_rs::cards::six::Six as ckc_rs::cards::HandRanker>::hand_rank_value_validated, crate::stubs::six_validated_fixed)]
+#[kani::stub(<ckc_rs::cards::seven::Seven as ckc_rs::cards::HandRanker>::hand_rank_value_validated, crate::stubs::seven_validated_fixed)]
+pub fn k_c02_validated_rank() {
+    crate::ob::c02::validated_rank(&mut KaniSrc);
+}
+
+#[kani::proof]
+#[kani::unwind(5)]
+#[kani::stub(<ckc_rs::cards::five::Five as ckc_rs::cards::HandRanker>::hand_rank_value_validated, crate::stubs::five_validated_fixed)]
+#[kani::stub(<ckc_rs::cards::six::Six as ckc_rs::cards::HandRanker>::hand_rank_value_validated, crate::stubs::six_validated_fixed)]
+#[kani::stub(<ckc_rs::cards::seven::Seven as ckc_rs::cards::HandRanker>::hand_rank_value_validated, crate::stubs::seven_validated_fixed)]
+pub fn k_c02_validated_rank_playback() {
+    unsafe { crate::src::REACH_OFF = true; }
+    crate::ob::c02::validated_rank(&mut KaniSrc);
 }
 
 #[kani::proof]
